@@ -41,6 +41,21 @@ class Obj:
         return "Obj(%r)" % (self.__dict__,)
 
 
+class HtmlObj:
+    """An object that provides its own HTML representation."""
+
+    def __init__(self, html):
+        self.html = html
+
+    def __html__(self):
+        return self.html
+
+    def __str__(self):
+        return "HtmlObj<%s>" % self.html
+
+    __repr__ = __str__
+
+
 def dec(v):
     """Decode the tagged JSON encoding used in cases into Python values."""
     if isinstance(v, list):
@@ -69,6 +84,8 @@ def dec(v):
             return Undefined(name=v.get("name", "missing_value"))
         if tag == "set":
             return {_hashable(dec(x)) for x in v["v"]}
+        if tag == "html":
+            return HtmlObj(v["v"])
         if tag == "bytes":
             return v["v"].encode("latin-1")
         raise ValueError("unknown tag %r" % (tag,))
@@ -151,6 +168,10 @@ def bind(name, args, kwargs):
 
 # --------------------------------------------------------------------------------------------
 # outcome kinds
+
+
+class Undecided(Exception):
+    """The documentation does not decide this input (callers count it as discarded)."""
 
 
 class Exact:
@@ -497,68 +518,72 @@ def spec_truncate(s, p, policy_leeway=5):
 
 
 def spec_wordwrap(s, p, newline="\n"):
+    """Validity predicate: every paragraph (line of the input) is wrapped separately; each output line
+    is a verbatim slice of its paragraph, in order, and only whitespace disappears between slices;
+    no line exceeds the width when long words may be broken; a word is only broken when it is longer
+    than the width (break_long_words) or next to a hyphen (break_on_hyphens)."""
     width, blw = p["width"], p["break_long_words"]
     hyph = p["break_on_hyphens"]
     sep = newline if p["wrapstring"] is None else p["wrapstring"]
     paragraphs = s.splitlines()
+    ws = WS_TEXTWRAP
 
     def pred(got):
         if not isinstance(got, str):
             return "expected a string, got %r" % (got,)
-        lines = got.split(sep) if (got or paragraphs) else []
-        pi, pos = 0, 0  # current paragraph, position inside it
-        for ln in lines:
-            if blw and len(ln) > width:
-                return "line %r is longer than width %d" % (ln, width)
-            if ln == "":
-                # an empty output line stands for an empty / whitespace-only paragraph
-                while pi < len(paragraphs) and paragraphs[pi][pos:].strip(WS_TEXTWRAP) != "":
-                    return "empty line while paragraph text %r is still pending" % (paragraphs[pi][pos:],)
-                pi, pos = pi + 1, 0
+        if not paragraphs:
+            return None if got == "" else "expected '' for an input without lines, got %r" % (got,)
+        lines = got.split(sep)
+        li = 0
+        for para in paragraphs:
+            if para.strip() == "":
+                if para.strip(ws) != "":
+                    # only non-ASCII whitespace: textwrap does not break there but may drop it; not defined
+                    raise Undecided("paragraph of non-ASCII whitespace only")
+                if li >= len(lines) or lines[li] != "":
+                    return "blank paragraph %r must give one empty line, got %r" % (para, lines[li:li + 1])
+                li += 1
                 continue
-            # move to the paragraph that still has text
-            while pi < len(paragraphs) and paragraphs[pi][pos:].strip(WS_TEXTWRAP) == "" and pos > 0:
-                pi, pos = pi + 1, 0
-            if pi >= len(paragraphs):
-                return "line %r has no source paragraph left" % (ln,)
-            para = paragraphs[pi]
-            rest = para[pos:]
-            # the line must be a verbatim slice of the paragraph; only whitespace may be dropped before it
-            skipped = len(rest) - len(rest.lstrip(WS_TEXTWRAP))
-            cands = [pos] if pos == 0 else []
-            cands.append(pos + skipped)
-            at = None
-            for c in cands:
-                if para.startswith(ln, c):
-                    at = c
-                    break
-            if at is None:
-                return "line %r is not the next slice of paragraph %r (at %d)" % (ln, para, pos)
-            end = at + len(ln)
-            if not blw and len(ln) > width:
-                body = ln.strip(WS_TEXTWRAP)
-                if any(ch in WS_TEXTWRAP for ch in body):
+            pos = 0
+            while para[pos:].strip() != "":
+                if li >= len(lines):
+                    return "text %r was lost" % (para[pos:],)
+                ln = lines[li]
+                li += 1
+                if ln == "":
+                    return "empty line while %r of paragraph %r is pending" % (para[pos:], para)
+                if blw and len(ln) > width:
+                    return "line %r is longer than width %d" % (ln, width)
+                rest = para[pos:]
+                skipped = len(rest) - len(rest.lstrip())  # any Unicode whitespace may be dropped
+                at = None
+                for c in range(pos, pos + skipped + 1):
+                    if para.startswith(ln, c):
+                        at = c
+                        break
+                if at is None:
+                    return "line %r is not the next slice of paragraph %r (from offset %d)" % (ln, para, pos)
+                end = at + len(ln)
+                if not blw and len(ln) > width and any(ch in ws for ch in ln.strip(ws)):
                     return "line %r exceeds width %d although it could be broken at whitespace" % (ln, width)
-            if blw is False and not hyph:
-                pass
-            # a break inside a word is only allowed when the word does not fit (long word) or at a hyphen
-            if end < len(para) and para[end] not in WS_TEXTWRAP and at < end and ln[-1] not in WS_TEXTWRAP:
-                word_start = end
-                while word_start > 0 and para[word_start - 1] not in WS_TEXTWRAP:
-                    word_start -= 1
-                word_end = end
-                while word_end < len(para) and para[word_end] not in WS_TEXTWRAP:
-                    word_end += 1
-                long_word = blw and word_end - word_start > width
-                at_hyphen = hyph and (ln[-1] == "-" or "—" in ln[-1:])
-                if not (long_word or at_hyphen):
-                    return "line %r ends inside the word %r" % (ln, para[word_start:word_end])
-            pos = end
-        # everything left must be whitespace
-        while pi < len(paragraphs):
-            if paragraphs[pi][pos:].strip(WS_TEXTWRAP) != "":
-                return "text %r was lost" % (paragraphs[pi][pos:],)
-            pi, pos = pi + 1, 0
+                if end < len(para) and para[end] not in ws and ln[-1] not in ws:
+                    a = end
+                    while a > 0 and para[a - 1] not in ws:
+                        a -= 1
+                    b = end
+                    while b < len(para) and para[b] not in ws:
+                        b += 1
+                    long_word = blw and b - a > width
+                    at_hyphen = hyph and (ln[-1] == "-" or para[end] == "-")
+                    if not (long_word or at_hyphen):
+                        return "line %r ends inside the word %r" % (ln, para[a:b])
+                pos = end
+            # trailing non-ASCII whitespace may surface as a whitespace-only line of this paragraph
+            while li < len(lines) and lines[li] != "" and lines[li].strip() == "" and lines[li] in para[pos:]:
+                pos = para.index(lines[li], pos) + len(lines[li])
+                li += 1
+        if li != len(lines):
+            return "unexpected extra lines %r" % (lines[li:],)
         return None
 
     return Pred(pred)
@@ -592,7 +617,8 @@ def spec_indent(s, p, esc=None):
             if i == 0 and not first:
                 want = [False]
             elif ln == "":
-                want = [True, False] if last_pseudo else [bool(blank)]
+                # an empty first line with first=True: 'first' and 'blank' disagree, either is accepted
+                want = [True, False] if last_pseudo or (i == 0 and not blank) else [bool(blank)]
             elif ln.strip() == "" and not blank:
                 want = [True, False]  # "blank" for whitespace-only lines is not defined
             else:
@@ -867,12 +893,12 @@ def unesc(s):
     return _ENT.sub(lambda m: _UNESC[m.group(1)], s)
 
 
-def has_raw_meta(s, allow_amp_entities=True):
-    """True when s contains < > " ' or an & that does not start one of the escape entities."""
+def has_raw_meta(s, amp=True):
+    """True when s contains < > " ' or (amp=True) an & that does not start one of the escape entities."""
     for i, ch in enumerate(s):
         if ch in "<>\"'":
             return True
-        if ch == "&" and not (allow_amp_entities and _ENT.match(s, i)):
+        if amp and ch == "&" and not _ENT.match(s, i):
             return True
     return False
 
@@ -880,7 +906,8 @@ def has_raw_meta(s, allow_amp_entities=True):
 XMLATTR_MUST_REJECT = set(" \t\n\r\f/>=")
 XMLATTR_MAY_REJECT = set("\x0b")
 
-_ATTR_TOKEN = re.compile(r' ([^\s"\'<>/=]+)="([^"<>\']*)"')
+# attribute-name state of the HTML tokenizer: a name ends at tab, LF, FF, CR, space, "/", ">" and "="
+_ATTR_TOKEN = re.compile(r' ([^ \t\n\f\r"\'<>/=]+)="([^"<>\']*)"')
 
 
 def parse_attrs(text):
@@ -901,9 +928,10 @@ _ANCHOR = re.compile(r'<a href="([^"<>]*)"((?: [a-z]+="[^"<>]*")*)>([^<>]*)</a>'
 _ANCHOR_ATTR = re.compile(r' ([a-z]+)="([^"<>]*)"')
 
 
-def parse_urlize(text):
+def parse_urlize(text, trimmed=False):
     """Tokenise urlize output into [("text", s) | ("a", href, {attr: value}, label)]; None if an
-    anchor is malformed or text outside anchors holds markup characters."""
+    anchor is malformed or text outside anchors holds markup characters.  trimmed: labels may end in a
+    cut-off entity (the documented trimming shortens the displayed text), so a bare & is tolerated there."""
     out, pos = [], 0
     while True:
         i = text.find("<", pos)
@@ -928,6 +956,6 @@ def parse_urlize(text):
             if has_raw_meta(tok[1]):
                 return None
         else:
-            if has_raw_meta(tok[1]) or has_raw_meta(tok[3]) or any(has_raw_meta(v) for v in tok[2].values()):
+            if has_raw_meta(tok[1]) or has_raw_meta(tok[3], amp=not trimmed) or any(has_raw_meta(v) for v in tok[2].values()):
                 return None
     return out
